@@ -199,7 +199,7 @@ pub fn drive_any<F: Fam>(case: &DdCase, prop: &'static str, props: u32) -> u64 {
 }
 
 pub fn random_case(rng: &mut Rng, only_all_impacted: bool, long_arcs: bool) -> DdCase {
-    let p = Profile { only_all_impacted, long_arcs_only: long_arcs, small: rng.chance(1, 4), depth_free_bias: rng.chance(1, 3), ..Default::default() };
+    let p = Profile { only_all_impacted, long_arcs_only: long_arcs, small: rng.chance(1, 4), depth_free_bias: rng.chance(1, 3), medium_share: 1, ..Default::default() };
     let spec = random_spec(rng, &p);
     DdCase { family: spec.family, gen_seed: spec.gen_seed, size: spec.size, variant: Variant { dom: crate::models::DomKind::None, ..spec.variant }, dd: spec.cfg.dd, drive_seed: rng.next() >> 8 }
 }
